@@ -5,8 +5,11 @@ import (
 	"encoding/binary"
 	"encoding/hex"
 	"fmt"
+	"crypto/sha256"
+	"io"
 	"strconv"
 	"strings"
+	"time"
 
 	"github.com/btcsuite/btcd/blockchain"
 	"github.com/btcsuite/btcd/btcutil/v2"
@@ -109,7 +112,57 @@ func pmtExtract(mb *wire.MsgMerkleBlock) (root chainhash.Hash, idx []uint32, ids
 	return root, e.idx, e.ids, true
 }
 
+func pmtWireErr(err error) string {
+	if err == io.EOF || err == io.ErrUnexpectedEOF {
+		return "err:eof"
+	}
+	if me, ok := err.(*wire.MessageError); ok {
+		d := me.Description
+		switch {
+		case strings.Contains(d, "invalid for protocol"):
+			return "err:pver"
+		case strings.Contains(d, "too many transaction hashes"):
+			return "err:toomanyhashes"
+		case strings.Contains(d, "flags size"):
+			return "err:toomanyflags"
+		case strings.Contains(d, "non-canonical"):
+			return "err:noncanon"
+		}
+	}
+	return "err:other"
+}
+
+// pmtw <pver> <hex>: MsgMerkleBlock.BtcDecode of arbitrary bytes, re-encoded and compared
+func execPmtw(f []string) string {
+	pver, err := strconv.ParseUint(f[1], 10, 32)
+	if err != nil {
+		return "bad-op"
+	}
+	raw := unhex(f[2])
+	rd := bytes.NewReader(raw)
+	var m wire.MsgMerkleBlock
+	if err := m.BtcDecode(rd, uint32(pver), wire.BaseEncoding); err != nil {
+		return pmtWireErr(err)
+	}
+	rest := rd.Len()
+	var out bytes.Buffer
+	re := m.BtcEncode(&out, uint32(pver), wire.BaseEncoding) == nil && bytes.Equal(out.Bytes(), raw[:len(raw)-rest])
+	h := sha256.New()
+	var hb bytes.Buffer
+	m.Header.Serialize(&hb)
+	h.Write(hb.Bytes())
+	for _, x := range m.Hashes {
+		h.Write(x[:])
+	}
+	h.Write(m.Flags)
+	return fmt.Sprintf("ok tx=%d nh=%d nf=%d rest=%d re=%s h=%s", m.Transactions, len(m.Hashes), len(m.Flags), rest,
+		bit(re), hex.EncodeToString(h.Sum(nil)))
+}
+
 func execPmt(f []string) string {
+	if f[0] == "pmtw" && len(f) == 3 {
+		return execPmtw(f)
+	}
 	if f[0] != "pmt" || len(f) != 3 {
 		return "bad-op"
 	}
@@ -127,6 +180,12 @@ func execPmt(f []string) string {
 	}
 	filter := bloom.LoadFilter(&wire.MsgFilterLoad{Filter: make([]byte, 36000), HashFuncs: 10, Tweak: uint32(seed64), Flags: wire.BloomUpdateNone})
 	filter.Add(pmtMarkMatch)
+	// header: version 1, zero prev, merkle root, time = seed, bits 0x1d00ffff, nonce = n
+	if len(blk.Transactions) > 0 {
+		tmp := btcutil.NewBlock(&blk)
+		blk.Header = wire.BlockHeader{Version: 1, MerkleRoot: blockchain.CalcMerkleRoot(tmp.Transactions(), false),
+			Timestamp: time.Unix(int64(seed64), 0), Bits: 0x1d00ffff, Nonce: uint32(len(blk.Transactions))}
+	}
 	block := btcutil.NewBlock(&blk)
 	mb, idx := bloom.NewMerkleBlock(block, filter) // panics for a block without transactions
 	root := blockchain.CalcMerkleRoot(block.Transactions(), false)
@@ -134,7 +193,9 @@ func execPmt(f []string) string {
 	// wire round trip of the message
 	var buf bytes.Buffer
 	wireOK := false
+	wireHash := "err"
 	if err := mb.BtcEncode(&buf, wire.ProtocolVersion, wire.BaseEncoding); err == nil {
+		wireHash = hex.EncodeToString(chainhash.DoubleHashB(buf.Bytes()))
 		var back wire.MsgMerkleBlock
 		if err := back.BtcDecode(&buf, wire.ProtocolVersion, wire.BaseEncoding); err == nil {
 			wireOK = back.Transactions == mb.Transactions && bytes.Equal(back.Flags, mb.Flags) && len(back.Hashes) == len(mb.Hashes)
@@ -164,11 +225,66 @@ func execPmt(f []string) string {
 	for i, h := range mb.Hashes {
 		hs[i] = hex.EncodeToString(h[:])
 	}
-	return fmt.Sprintf("idx=%s tx=%d flags=%s hashes=%s root=%s x=%s", idxS, mb.Transactions,
-		hex.EncodeToString(mb.Flags), strings.Join(hs, ","), hex.EncodeToString(root[:]), bit(x))
+	return fmt.Sprintf("idx=%s tx=%d flags=%s hashes=%s root=%s x=%s wire=%s", idxS, mb.Transactions,
+		hex.EncodeToString(mb.Flags), strings.Join(hs, ","), hex.EncodeToString(root[:]), bit(x), wireHash)
+}
+
+func pmtVarint(n uint64) []byte {
+	var b bytes.Buffer
+	wire.WriteVarInt(&b, 0, n)
+	return b.Bytes()
+}
+
+func genPmtWire(g *core.Gen) {
+	r := g.R
+	le32 := func(v uint32) []byte { return []byte{byte(v), byte(v >> 8), byte(v >> 16), byte(v >> 24)} }
+	for i := 0; i < g.N(300, 10000); i++ {
+		nh := r.Intn(6)
+		nf := r.Intn(4)
+		switch r.Intn(12) {
+		case 0:
+			nh = int(r.Pick(252, 253, 254))
+		case 1:
+			nf = int(r.Pick(252, 253, 254))
+		}
+		msg := append([]byte{}, r.Bytes(80)...)
+		msg = append(msg, le32(r.U32())...)
+		hcount := pmtVarint(uint64(nh))
+		fcount := pmtVarint(uint64(nf))
+		body := r.Bytes(32 * nh)
+		flags := r.Bytes(nf)
+		switch r.Intn(14) {
+		case 0: // count limits with (necessarily) short data
+			hcount = pmtVarint(uint64(400001 + r.Pick(-1, 0, 1)))
+		case 1:
+			fcount = pmtVarint(uint64(50000 + r.Pick(-1, 0, 1)))
+			if r.Bool() {
+				flags = make([]byte, 50001) // enough data for 49999 / 50000 / 50001
+			}
+		case 2: // non-canonical counts
+			hcount = [][]byte{{0xfd, byte(nh), 0}, {0xfe, byte(nh), 0, 0, 0}, {0xff, byte(nh), 0, 0, 0, 0, 0, 0, 0}}[r.Intn(3)]
+		case 3:
+			fcount = [][]byte{{0xfd, byte(nf), 0}, {0xfe, byte(nf), 0, 0, 0}}[r.Intn(2)]
+		case 4: // huge counts
+			hcount = []byte{0xff, 0xff, 0xff, 0xff, 0xff, 0xff, 0xff, 0xff, 0xff}
+		}
+		msg = append(msg, hcount...)
+		msg = append(msg, body...)
+		msg = append(msg, fcount...)
+		msg = append(msg, flags...)
+		switch r.Intn(8) {
+		case 0: // truncate anywhere
+			msg = msg[:r.Intn(len(msg)+1)]
+		case 1: // trailing bytes
+			msg = append(msg, r.Bytes(1+r.Intn(5))...)
+		}
+		pver := r.Pick(70001, 70001, 70016, 70016, 70000, 70002, 0, 60002)
+		rec(g, "pmt-wire", len(msg) > 84, fmt.Sprintf("C20 pmtw %d %s", pver, hexTok(msg)))
+	}
 }
 
 func genPmt(g *core.Gen) {
+	genPmtWire(g)
 	r := g.R
 	emit := func(class string, bits []byte) {
 		any := bytes.IndexByte(bits, '1') >= 0
@@ -210,6 +326,18 @@ func genPmt(g *core.Gen) {
 		for _, b := range shapes(n) {
 			emit("pmt-shapes", b)
 		}
+	}
+	// CompactSize boundaries of the two counts of the message: alternating matches give exactly n hashes,
+	// all-matched gives about 2n flag bits (252..254 flag bytes for n around 1008..1016)
+	for _, n := range []int{252, 253, 254} {
+		b := make([]byte, n)
+		for i := range b {
+			b[i] = '0' + byte(1-i%2)
+		}
+		emit("pmt-count-boundary", b)
+	}
+	for _, n := range []int{1006, 1008, 1010, 1012, 1014, 1016, 1018} {
+		emit("pmt-count-boundary", bytes.Repeat([]byte{'1'}, n))
 	}
 	big := []int{63, 64, 65, 127, 128, 129, 255, 256, 257, 511, 513, 1000}
 	if g.Thorough() {
